@@ -1069,7 +1069,7 @@ def rule_container_prov(facts):
         got = effects_nf(facts, b)
         comp[key] = got
         want = CT.CALLS.get(key)
-        ok = want is not None and sorted(want) == got
+        ok = want is not None and (sorted(want) == got or __import__("nf").equal_up_to_renaming(got, want))
         r.ob(ok)
         if not ok:
             r.violations.append(V("CONTAINER-PROV", key, "fixed-size container primitive",
@@ -1453,6 +1453,19 @@ def rule_builder_prov(facts):
         n += 1
         want = BT.BUILDERS.get(q)
         ok = want is not None and sorted(want) == sorted(got)
+        if not ok and want is not None:
+            # the order of the fields in the struct definition / literal is not part of what a setter does
+            def _canon(xs):
+                out = []
+                for x in xs:
+                    m_ = re.match(r"^(.*?\{)(.*)(\})$", x)
+                    if m_:
+                        inner = ", ".join(sorted(m_.group(2).split(", ")))
+                        x = m_.group(1) + inner + m_.group(3)
+                    out.append(x)
+                return sorted(out)
+            import nf as _nf
+            ok = _canon(want) == _canon(got) or _nf.equal_up_to_renaming(_canon(got), _canon(want))
         r.ob(ok)
         if not ok:
             b = facts.by_qname[q][0]
@@ -1484,6 +1497,17 @@ def err_prov_bodies(facts):
     return out
 
 
+_ERR_NF = {
+    # effects normal form of the reviewed bodies (engine/nf.py), used when the literal call list differs
+    "error::Rich[label::LabelError]::merge_expected_found": None,
+}
+
+
+def _err_prov_nf_reference(facts, q):
+    import builder_table as BT
+    return sorted(BT.ERR_METHODS_NF[q]) if q in getattr(BT, "ERR_METHODS_NF", {}) else None
+
+
 def rule_err_prov(facts):
     """How a failure is *described*: label_with replaces the expected set by the label, in_context pushes a (label, span)
     pair once, merge_expected_found adds the new expectation unless present and keeps the first `found`, merge delegates to
@@ -1500,6 +1524,14 @@ def rule_err_prov(facts):
             continue          # a new error type / method: not reviewed, not judged
         n += 1
         ok = sorted(want) == got
+        if not ok:
+            # the same bookkeeping in effects normal form (a `for` loop vs an adaptor, `v[..].contains` vs `v.contains`, `if let` vs `match`)
+            try:
+                b_ = [x for x in facts.bodies if x["uname"] == q][0]
+                ref_ = _err_prov_nf_reference(facts, q)
+                ok = ref_ is not None and ref_ == effects_nf(facts, b_)
+            except Exception:
+                ok = False
         r.ob(ok)
         if not ok:
             b = facts.by_uname[q] if hasattr(facts, "by_uname") and q in facts.by_uname else None
